@@ -71,20 +71,20 @@ pub fn any_bool() -> bool {
 }
 
 /// Hook invoked at every scheduling point; installed by the concurrency harnesses.
-pub static mut YIELD_HOOK: Option<fn(u32)> = None;
-static mut IN_HOOK: bool = false;
+pub static mut YIELD_HOOK: (Option<fn(u32)>, u64) = (None, 0x5a5a_0012); // (tagged: see the note in the corosensei model)
+static mut IN_HOOK: (bool, u32) = (false, 0x5a5a_0013);
 
 /// A scheduling point. `site` identifies the kind of operation about to happen.
 #[inline]
 pub fn yield_point(site: u32) {
     unsafe {
-        if IN_HOOK {
+        if IN_HOOK.0 {
             return;
         }
-        if let Some(h) = YIELD_HOOK {
-            IN_HOOK = true;
+        if let Some(h) = YIELD_HOOK.0 {
+            IN_HOOK.0 = true;
             h(site);
-            IN_HOOK = false;
+            IN_HOOK.0 = false;
         }
     }
 }
@@ -92,7 +92,7 @@ pub fn yield_point(site: u32) {
 /// Install / remove the scheduling hook.
 pub fn set_yield_hook(h: Option<fn(u32)>) {
     unsafe {
-        YIELD_HOOK = h;
+        YIELD_HOOK.0 = h;
     }
 }
 
